@@ -237,7 +237,10 @@ func (fr *frame) applyContractEnv(x ssa.CallInstruction, c2 *Contract, name stri
 	var sig *types.Signature
 	if vars != nil {
 		sig = sig0
-		env = &Env{fx: fx, vars: vars, cur: pre, old: pre, pkg: fx.fn.Pkg.Pkg}
+		env = &Env{fx: fx, vars: vars, cur: pre, old: pre, pkg: fx.fn.Pkg.Pkg, params: map[string]bool{}}
+		for k := range vars {
+			env.params[k] = true
+		}
 		for _, l := range c2.Lets {
 			env.vars[l.Name] = fx.eval(l.E, env)
 		}
